@@ -76,6 +76,9 @@ the fixed rules listed under "Semantic choices" below.
    * `while cond { … break; … }` (`while_stmt`): `Gen.whileFuel FUEL cond body σ` (GeoModel/TRAN2Prelude.lean) with FUEL the
      job's `while_fuel` expression; the job must set `option_wrap`: every normal result of the function is `some …` and an
      exhausted bound is `none`, so a wrong bound cannot yield a wrong value (the tie theorem shows `none` never occurs).
+   * `P[i]` on a job-declared indexed place P of a mutable variable (`index1`: variable, get / set templates, methods of the
+     whole place such as `slice::swap`): reads through `get`; `P[i] = e;` and `P[i].m(args);` (m in `mut_methods`) write
+     through `set`.
    * closure parameters may be tuple patterns `|(_, p), (_, q)|` (Lean's pattern-matching `fun`); `v[<expr>]` with a computed
      index only under `unguarded_index: "total"`.
 
@@ -603,6 +606,13 @@ class Parser:
                         e = self.call_template(self.funcs["." + name], e, args)
                 else:
                     e = "%s.%s" % (e, name)
+            elif self.at("[") and e in self.opts.get("index1", {}):
+                # `P[i]` on a job-declared indexed place P of a mutable variable: the job's `get` template over (variable, index)
+                ix1 = self.opts["index1"][e]
+                self.eat("op", "[")
+                i1 = self.expr()
+                self.eat("op", "]")
+                e = ix1["get"].format(ix1["var"], i1)
             elif self.at("[") and e in self.opts.get("index2", {}):
                 # `X[a][b]` on a job-declared doubly indexed variable: the job's `get` template
                 idx = []
@@ -1145,6 +1155,43 @@ class StmtParser(Parser):
         if sm is not None:
             self.end_of_stmt()
             return "let %s := %s\n%s" % (sm[0], sm[1], self.sstmts(env))
+        ix1 = self.opts.get("index1", {}).get(self.peek()[1]) if self.peek()[0] == "id" else None
+        if ix1 is not None and ix1["var"] in env.names():
+            var = ix1["var"]
+            save = self.i
+            self.eat()
+            if self.at("["):
+                # `P[i].m(args);` (m in `mut_methods`: new element from the old one) and `P[i] = e;`
+                self.eat()
+                i1 = self.expr()
+                self.eat("op", "]")
+                if self.at("=") :
+                    self.eat()
+                    val = self.expr()
+                elif self.at(".") and self.peek(1)[0] == "id" and self.peek(1)[1] in self.opts.get("mut_methods", {}) and self.peek(2) == ("op", "("):
+                    self.eat()
+                    m = self.eat()[1]
+                    args = self.args()
+                    fn = self.opts["mut_methods"][m]
+                    old_el = ix1["get"].format(var, i1)
+                    val = fn.format(old_el, *args) if "{" in fn else "(%s %s)" % (fn, " ".join([old_el] + args))
+                else:
+                    self.i = save
+                    val = None
+                if val is not None:
+                    self.end_of_stmt()
+                    self.forget_len(var)
+                    return "let %s := %s\n%s" % (var, ix1["set"].format(var, i1, val), self.sstmts(env))
+            elif (self.at(".") and self.peek(1)[0] == "id" and self.peek(1)[1] in ix1.get("methods", {}) and self.peek(2) == ("op", "(")):
+                # `P.m(args);` for a method of the whole place listed by the job (`slice::swap`): template over (variable, args…)
+                self.eat()
+                m = self.eat()[1]
+                args = self.args()
+                self.end_of_stmt()
+                self.forget_len(var)
+                return "let %s := %s\n%s" % (var, ix1["methods"][m].format(var, *args), self.sstmts(env))
+            else:
+                self.i = save
         if (self.peek() == ("id", "std::mem::swap") and self.peek(1) == ("op", "(") and self.peek(2)[0] == "id"
                 and self.peek(3) == ("op", ",") and self.peek(4)[0] == "id" and self.peek(5) == ("op", ")")):
             # `std::mem::swap(a, b);` on two live mutable variables (here: `&mut` bindings of a pattern)
